@@ -552,6 +552,18 @@ func runCodec(c *corr.Ctx) error {
 		return nil
 	}
 
+	// crafted inputs that made the unrepaired decoders panic or allocate GiBs: always re-run live
+	over, neg, big := strings.Repeat("80", 11), strings.Repeat("ff", 9)+"01", strings.Repeat("ff", 8)+"7f"
+	for _, cr := range []struct {
+		k int
+		h string
+	}{{10, "4e6f4b5602" + over}, {10, "4e6f4b5607010000000000008080808008"}, {11, "000000400102"},
+		{5, "01" + neg}, {5, "01" + big}, {6, "01000501" + neg}, {7, "0101" + neg}, {8, "01" + neg},
+		{1, "80808080040000000102"}, {12, "400000000102"}, {3, ""}, {3, "00" + over},
+		{10, "4e6f4b5606"}, {10, "4e6f4b5607"}} {
+		in, _ := hex.DecodeString(cr.h)
+		emitDec(c, cr.k, in, nil, "crafted")
+	}
 	encoders := []int{1, 3, 4, 5, 6, 7, 8, 10, 12, 13}
 	rounds := c.Scale(14, 400)
 	for r := 0; r < rounds; r++ {
